@@ -66,4 +66,14 @@ def enumFrom {α : Type} (n : Nat) : List α → List (Int × α)
 
 def enum {α : Type} (xs : List α) : List (Int × α) := enumFrom 0 xs
 
+/-- `for _, x := range xs { … }` whose body updates the variables `s` and may `return`: `Sum.inl r` — an iteration
+returned `r`; `Sum.inr s` — the loop ran to its end with these values. -/
+def foldReturn {α σ ρ : Type} (xs : List α) (init : σ) (body : σ → α → Sum ρ σ) : Sum ρ σ :=
+  match xs with
+  | [] => .inr init
+  | x :: r =>
+    match body init x with
+    | .inl res => .inl res
+    | .inr s => foldReturn r s body
+
 end Gen.Rt
